@@ -63,6 +63,8 @@ def main(args):
         with error_on_exception(emit):
             nodes = file_processor_(input_file)
             basename = get_basename(input_file)
+            if basename in model_nodes:
+                emit.error("two inputs are named '%s': their outputs would overwrite each other" % basename)
             model_nodes[basename] = nodes
 
     generate_target_files(emit, serializers, model_nodes)
